@@ -84,6 +84,7 @@ class Writer:
     def __init__(self, ck: Check):
         self.summ: Summary = ck.summ(STORE + "write_blocks_to_disk", 0)
         self.rows: Dict[str, Tuple[Tuple[Term, ...], Event]] = {}
+        self.row_doms: Dict[str, List[Term]] = {}
         self.execs: List[Event] = []
         s = self.summ
         appends: Dict[Term, List[Event]] = {}
@@ -101,10 +102,20 @@ class Writer:
             if not ins:
                 continue
             lst = e.term[2][1]
+            if lst[0] == "comp" and lst[1] == "list" and lst[2][0] == "tuple":
+                # rows built by a loop of appends (normalised) or written as a comprehension
+                self.rows[ins[0].table] = (lst[2][1], e)
+                self.row_doms[ins[0].table] = [g[0] for g in lst[3]]
+                if any(g[1] for g in lst[3]):
+                    raise AnalysisError("rows for table %s are filtered: %s" % (ins[0].table, show(lst)[:80]))
+                continue
             aps = appends.get(lst, [])
             if len(aps) != 1 or aps[0].term[2][0][0] != "tuple":
                 raise AnalysisError("rows for table %s are not built by a single append of a tuple" % ins[0].table)
             self.rows[ins[0].table] = (aps[0].term[2][0][1], aps[0])
+            self.row_doms[ins[0].table] = list(loop_doms(aps[0]))
+            if residual(aps[0], ()):
+                raise AnalysisError("rows for table %s are appended conditionally" % ins[0].table)
 
 
 def col_index(ck: Check, table: str, col: str) -> int:
@@ -205,7 +216,7 @@ def r08_1(ck: Check) -> None:
         if okt and kseq == (table, "seq") and ktx == (table, "transaction_hash") \
                 and row[col_index(ck, table, "transaction_hash")] == txid \
                 and row[col_index(ck, table, "seq")] == ("e", ("a", tx, coll), "idx") \
-                and list(loop_doms(ev)) == [blocks, ("a", b, "transactions"), ("a", tx, coll)]:
+                and w.row_doms[table] == [blocks, ("a", b, "transactions"), ("a", tx, coll)]:
             ck.ok("R08.1", construct, "written with the canonical transaction id and the enumerate() position; read back under the same two columns", st.loc)
         else:
             ck.violated("R08.1", construct, "keys on read: %s / %s; written id %s, position %s" % (
@@ -304,13 +315,13 @@ def r08_3(ck: Check) -> None:
     bid = ("call", ("a", b, "hash"), (), ())
     row, ev = w.rows["transaction_locator"]
     construct = "transaction_locator rows = (sha256d(transaction.serialize()), block.hash()) for every transaction of every block"
-    if row == (txid, bid) and list(loop_doms(ev)) == [blocks, ("a", b, "transactions")] and not residual(ev, ()):
+    if row == (txid, bid) and w.row_doms["transaction_locator"] == [blocks, ("a", b, "transactions")]:
         ck.ok("R08.3", construct, "the stored transaction id is the canonical id", ev.loc)
     else:
         ck.violated("R08.3", construct, "row is %s" % show(("tuple", row))[:120], ev.loc)
     crow, cev = w.rows["chain"]
     construct = "chain.block_hash = block.hash()"
-    if crow[col_index(ck, "chain", "block_hash")] == bid and list(loop_doms(cev)) == [blocks] and not residual(cev, ()):
+    if crow[col_index(ck, "chain", "block_hash")] == bid and w.row_doms["chain"] == [blocks]:
         ck.ok("R08.3", construct, "", cev.loc)
     else:
         ck.violated("R08.3", construct, "chain key is %s" % show(crow[0])[:80], cev.loc)
